@@ -1,10 +1,12 @@
 package litefs
 
 import (
+	"bytes"
 	"context"
 	"io"
 	"os"
 	"path/filepath"
+	"sort"
 	"time"
 
 	rt "github.com/superfly/litefs/internal/verifrt"
@@ -150,4 +152,72 @@ func VerifC09Retention() {
 	rt.Check(kept[0], "TWIN:retention never removes anything")
 	rt.Reach("c09.retention")
 	_ = time.Second
+}
+
+// verifCheckChain: the transaction files of db form one chain that ends at the
+// database's position: every file verifies, file i+1 starts at file i's last
+// TXID + 1 with a pre-checksum equal to file i's post-checksum.
+func verifCheckChain(db *DB, what string) {
+	names := verifLTXNames(db)
+	sort.Strings(names)
+	var prevMax ltx.TXID
+	var prevPost ltx.Checksum
+	n := 0
+	for _, name := range names {
+		lo, hi, err := ltx.ParseFilename(name)
+		if err != nil {
+			continue // not a transaction file
+		}
+		x, derr := verifDecodeLTX(filepath.Join(db.LTXDir(), name))
+		rt.Check(derr == nil, what+": every transaction file passes its own integrity check")
+		rt.Check(x.hdr.MinTXID == lo && x.hdr.MaxTXID == hi, what+": file name matches its header")
+		if n > 0 {
+			rt.Check(lo == prevMax+1, what+": each file starts at the previous file's last TXID plus one")
+			rt.Check(x.hdr.IsSnapshot() || x.hdr.PreApplyChecksum == prevPost, what+": each file's pre-checksum equals the previous file's post-checksum")
+		}
+		prevMax, prevPost = hi, x.trailer.PostApplyChecksum
+		n++
+	}
+	rt.Check(n > 0, what+": at least one transaction file")
+	rt.Check(db.Pos() == ltx.Pos{TXID: prevMax, PostApplyChecksum: prevPost}, what+": the chain ends at the database's current position")
+}
+
+// VerifC09ImportBehindForwarded: an import waits for the write lock while the
+// halt-lock holder forwards commits; when it finally runs it must extend the
+// chain from the position reached by then.
+func VerifC09ImportBehindForwarded() {
+	ctx := context.Background()
+	w, _ := verifChainN(1, 1) // files 42 on top of the base position 41
+	db := w.db
+	hl, err := db.AcquireHaltLock(ctx, 7)
+	rt.Check(err == nil && hl != nil && hl.Pos == db.Pos(), "halt lock granted at the current position")
+	forwarded := 0
+	rt.OnTick = func() {
+		if forwarded > 0 {
+			return
+		}
+		k := 1 + rt.Choose("forwarded.commits", 2)
+		for i := 0; i < k; i++ {
+			pos := db.Pos()
+			p := rt.Bytes("fwd", verifP)
+			verifHeaderPage(p, 1, false)
+			img := [][]byte{p}
+			hdr := ltx.Header{PageSize: verifP, Commit: 1, MinTXID: pos.TXID + 1, MaxTXID: pos.TXID + 1, PreApplyChecksum: pos.PostApplyChecksum, NodeID: 0xAA}
+			file := verifEncodeLTX(hdr, []uint32{1}, img, verifSpecChecksum(img))
+			path, err := db.WriteLTXFileAt(ctx, bytes.NewReader(file))
+			rt.Check(err == nil, "forwarded transaction file written")
+			rt.Check(db.ApplyLTXNoLock(path, true) == nil, "forwarded transaction applied under the halt lock")
+			forwarded++
+		}
+		db.ReleaseHaltLock(ctx, 7)
+	}
+	in := verifJoin(verifImage("imp", 1+rt.Choose("import.pages", 2), false))
+	err = db.Import(ctx, bytes.NewReader(in))
+	rt.OnTick = nil
+	rt.Check(forwarded > 0, "harness: the import waited behind the halt lock")
+	rt.Check(err == nil, "the import succeeds once the halt lock is released")
+	rt.Check(len(w.exits) == 0, "not fatal")
+	rt.Check(db.Pos().TXID == 42+ltx.TXID(forwarded)+1, "the import is one new transaction after the forwarded ones")
+	verifCheckChain(db, "C09")
+	rt.Reach("c09.import.behind.forwarded")
 }
